@@ -188,6 +188,142 @@ def h_core_update(ctx, idx, weighted):
     ctx.claim('slices_are_ridge_minimisers', ctx.all_(ok))
 
 
+class _skel_stub:
+    """teneva.matrix_skeleton through the part of its contract (C02/C03) the
+    rank-adaptive mode relies on: factors (m x k), (k x n) with a
+    nondeterministically chosen rank 1 <= k <= min(cap, m, n); the factor
+    entries are arbitrary (the truncation error is not constrained), except
+    that a full-rank result reproduces the matrix."""
+    def __init__(self, ctx):
+        self.ctx = ctx
+        self.k = 0
+        self.ranks = []
+        self.caps = []
+
+    def __call__(self, A, e=1.E-10, r=1.E+12, hermitian=False, rel=False, give_to='m'):
+        ctx = self.ctx
+        self.k += 1
+        m, n = A.shape
+        cap = min(int(r), m, n)
+        self.caps.append(int(r))
+        if cap <= 1:
+            kk = 1
+        else:
+            t = ctx.fresh_int(f'skel_rank{self.k}')
+            ctx.assume(t >= 1)
+            ctx.assume(t <= cap)
+            kk = ctx.concretize_int(t)
+        self.ranks.append(kk)
+        if kk == min(m, n):
+            if m <= n:
+                return eye(ctx, m), A.copy()
+            return A.copy(), eye(ctx, n)
+        U = ctx.array(f'sku{self.k}', (m, kk))
+        V = ctx.array(f'skv{self.k}', (kk, n))
+        return U, V
+
+
+def _swap_data(ctx):
+    """Data of the tensor T[k1,k2,k3] = f[k2] h[k1,k3] (h well conditioned) on
+    the full 2x2x2 grid and an initial tensor of ranks (2, 2) whose cores are
+    generalised permutation matrices: the real code finds rank 2 for the
+    unfolding (k1 | k2 k3) and rank 1 after exchanging the first two modes, so
+    the mode swap really happens in the concrete twin."""
+    f = vec(ctx, 'f', 2)
+    h = mat(ctx, 'h', 2, 2)
+    for v in list(f) + list(h.reshape(-1)):
+        ctx.assume(ctx.ge(v, ctx.const(1) / 2))
+        ctx.assume(ctx.le(v, 4))
+    ctx.assume(ctx.ge(h[0, 0] * h[1, 1] - h[0, 1] * h[1, 0], 1))
+    I = multi_indices([2, 2, 2])
+    y = np.array([f[i[1]] * h[i[0], i[2]] for i in I], dtype=f.dtype)
+    c = ctx.const
+    z = c(0)
+    o = c(1)
+    Y0 = [np.array([[[o, o * 2], [o * 3, o]]], dtype=f.dtype).reshape(1, 2, 2),
+          np.array([[[o, z], [z, z]], [[z, z], [z, o]]], dtype=f.dtype),
+          np.array([[[o], [z]], [[z], [o]]], dtype=f.dtype)]
+    return I, y, Y0
+
+
+def h_adaptive(ctx, n, r0, r, r_add, I, allow_swap, nswp=1, structured=False):
+    """Rank-adaptive mode, d = 3: ranks of the result are <= r, shapes are kept
+    (up to the recorded mode rearrangement), info reports sweeps and stop
+    reason, the caller's index array is not permuted.  matrix_skeleton is used
+    through its rank contract (see _skel_stub); the concrete twin runs the real
+    code."""
+    d = 3
+    lamb = ctx.real('lamb')
+    ctx.assume(ctx.gt(lamb, 0))
+    if structured:
+        I, y, Y0 = _swap_data(ctx)
+        ctx.assume(ctx.le(lamb, ctx.const(1) / 10 ** 6))
+    else:
+        I = [tuple(i) for i in I]
+        Y0 = ctx.tt('g', [n] * d, r0)
+        y = vec(ctx, 'y', len(I))
+    m = len(I)
+    Y0c = [G.copy() for G in Y0]
+    Iarr = np.array(I)
+    Icopy = Iarr.copy()
+    info = {}
+    alsmod = sys.modules['teneva.als']
+
+    # the swap option reads the validation set at the end of every sweep
+    I_vld = np.array([[0, 1, 1], [1, 0, 0]]) if allow_swap else None
+    y_vld = vec(ctx, 'yv', 2) if allow_swap else None
+    Ivc = None if I_vld is None else I_vld.copy()
+
+    def run():
+        return teneva.als(Iarr, y, Y0, nswp=nswp, e=None, info=info, lamb=lamb, r=r, r_add=r_add,
+                          allow_swap=allow_swap, I_vld=I_vld, y_vld=y_vld)
+    if is_sym(ctx):
+        st = _skel_stub(ctx)
+        saved = teneva.matrix_skeleton
+        saved_q = alsmod._quality_of_decomp
+        nq = [0]
+
+        def quality(Q, V1, V2):
+            # relative residual of a factorisation: some non-negative number
+            nq[0] += 1
+            v = ctx.real(f'qual_{nq[0]}')
+            ctx.assume(v >= 0)
+            return v
+        teneva.matrix_skeleton = st
+        alsmod._quality_of_decomp = quality
+        try:
+            Y = _with_stubs(ctx, run)
+        finally:
+            teneva.matrix_skeleton = saved
+            alsmod._quality_of_decomp = saved_q
+        ctx.claim('skeleton_called', st.k >= 2 * (d - 2) * nswp)
+        ctx.claim('skeleton_caps_le_r', all(c <= r for c in st.caps))
+    else:
+        saved = teneva.matrix_skeleton
+        caps = []
+
+        def spy_skel(A, e=1.E-10, r=1.E+12, **kw):
+            caps.append(int(r))
+            return saved(A, e, r, **kw)
+        teneva.matrix_skeleton = spy_skel
+        try:
+            Y = run()
+        finally:
+            teneva.matrix_skeleton = saved
+        ctx.claim('skeleton_called', len(caps) >= 2 * (d - 2) * nswp)
+        ctx.claim('skeleton_caps_le_r', all(c <= r for c in caps))
+    perm = list(info['rearrange']) if allow_swap else list(range(d))
+    ctx.claim('rearrange_is_permutation', sorted(int(p) for p in perm) == list(range(d)))
+    ctx.claim('well_formed', well_formed(Y, [n] * d))
+    ctx.claim('ranks_le_r', all(G.shape[2] <= r for G in Y[:-1]))
+    ctx.claim('finite', finite(ctx, Y))
+    ctx.claim('info_nswp', info['nswp'] == nswp and info['stop'] == 'nswp')
+    ctx.claim('initial_untouched', all(bool(ctx.all_eq(a, b)) for a, b in zip(Y0, Y0c)))
+    ctx.claim('index_array_untouched', bool(np.array_equal(Iarr, Icopy)))
+    if allow_swap:
+        ctx.claim('validation_indices_untouched', bool(np.array_equal(I_vld, Ivc)))
+
+
 def h_split(ctx, d, n, r, I, weighted):
     """a+b sweeps == a sweeps then restart for b sweeps ((a,b) = (1,1))."""
     I = [tuple(i) for i in I]
@@ -364,6 +500,14 @@ def instances(tier):
         out.append({'func': 'h_func', 'params': {'m': 2, 'n': 2}, 'opts': {'generic_divisors': True}})
         out.append({'func': 'h_func', 'params': {'m': 3, 'n': 2}, 'opts': {'generic_divisors': True}})
         out.append({'func': 'h_func', 'params': {'m': 2, 'n': 2, 'sym_points': True}, 'opts': {'generic_divisors': True}})
+    # rank-adaptive mode (d = 3) around the rank contract of matrix_skeleton
+    I4 = [[0, 0, 0], [1, 1, 1], [0, 1, 0], [1, 0, 1]]
+    for (r, r_add, swap, nswp) in [(1, 1, False, 1), (2, 1, False, 1), (2, 0, False, 1), (2, 1, True, 1), (1, 2, True, 1),
+                                   (2, 1, False, 2)]:
+        out.append({'func': 'h_adaptive', 'params': {'n': 2, 'r0': 1, 'r': r, 'r_add': r_add, 'I': I4, 'allow_swap': swap,
+                                                     'nswp': nswp}, 'opts': {'generic_divisors': True}})
+    out.append({'func': 'h_adaptive', 'params': {'n': 2, 'r0': 2, 'r': 2, 'r_add': 0, 'I': None, 'allow_swap': True,
+                                                 'structured': True}, 'opts': {'generic_divisors': True}})
     out.append({'func': 'h_missing_slice', 'params': {'d': 2, 'n': 2}, 'opts': {'generic_divisors': True}})
     out.append({'func': 'h_callback', 'params': {'d': 2, 'n': 2, 'I': lay2[0]}, 'opts': {'generic_divisors': True}})
     return out
@@ -372,10 +516,14 @@ def instances(tier):
 BOUNDS = {
     'quick': 'index version, constant rank: d=2 n=2 ranks 1,2 with every ordered sample layout of size 2 (and a third of size 3, '
              'duplicates included), d=3 n=2 rank 1; symbolic values, weights > 0, initial cores, lamb > 0; one sweep for optimality, '
-             'two for the split claim; callback at a symbolic sweep',
+             'two for the split claim; callback at a symbolic sweep; rank-adaptive mode d=3 n=2 with caps r in {1,2}, r_add in '
+             '{0,1,2}, with and without allow_swap, every rank outcome of the truncations',
     'thorough': 'all size-3 layouts, more d=3 layouts',
 }
-OUTSIDE = ('rank-adaptive mode (SVD of derived matrices), allow_swap, update_sol; als_func beyond d=2, rank 1, n=2 and its n_max growth; more sweeps / '
+OUTSIDE = ('rank-adaptive mode beyond d=3, n=2, initial ranks 1 (2 for the structured swap instance), two sweeps; the values '
+           'the adaptive mode returns (its truncation error is that of matrix_skeleton, C02/C03); update_sol; als_func beyond d=2, rank 1, n=2 and its n_max growth; more sweeps / '
            'larger data; the ridge system determinant is a generic divisor (positive definite for lamb > 0)')
-ASSUMPTIONS = ['least squares solved exactly (Cramer)', 'teneva.accuracy inside als replaced by an arbitrary non-negative value '
+ASSUMPTIONS = ['least squares solved exactly (Cramer)', 'rank-adaptive mode: matrix_skeleton replaced by its rank contract (any rank '
+               '1..min(cap, m, n), arbitrary factors, exact when full rank) and als._quality_of_decomp by an arbitrary non-negative '
+               'number; the concrete twin runs the real routines', 'teneva.accuracy inside als replaced by an arbitrary non-negative value '
                '(only feeds the e-stop criterion; e=None in the harness)', 'exact real arithmetic']
